@@ -48,12 +48,21 @@ func main() {
 					Model    *smodel.Model `json:"model"`
 					SplitPkg string        `json:"split_pkg"`
 					Moved    []string      `json:"moved"`
+					Schema   *struct {
+						Format   smodel.Format `json:"format"`
+						Model    *smodel.Model `json:"model"`
+						SplitPkg string        `json:"split_pkg"`
+						Moved    []string      `json:"moved"`
+					} `json:"schema"`
 				} `json:"cases"`
 			} `json:"case"`
 		}
 		var m *smodel.Model
 		if json.Unmarshal(raw, &probe) == nil && len(probe.Case.Cases) > 0 {
 			c := probe.Case.Cases[0]
+			if c.Schema != nil {
+				c.Format, c.Model, c.SplitPkg, c.Moved = c.Schema.Format, c.Schema.Model, c.Schema.SplitPkg, c.Schema.Moved
+			}
 			m = c.Model
 			f = c.Format
 			if c.SplitPkg != "" {
